@@ -203,6 +203,23 @@ def make_text(byteorder, wordorder):
     return text
 
 
+def bits_alias(data: bytes) -> bool:
+    """what decode_bits() returns belongs to the caller: after it was extended / changed in place (as when a 16-bit
+    group is gathered with `bits += decoder.decode_bits()`), decoding the same byte again still yields its 8 wire bits"""
+    from pymodbus.payload import BinaryPayloadDecoder
+    assume(len(data) == 1)
+    exp = [bit_of(data[0], k) for k in range(8)]
+    d1 = BinaryPayloadDecoder(data + data)
+    first = d1.decode_bits()
+    first += d1.decode_bits()
+    first[0] = not first[0]
+    d2 = BinaryPayloadDecoder(data)
+    second = d2.decode_bits()
+    if second is first:
+        return False
+    return same([bool(x) for x in second], [bool(x) for x in exp], "bits decoded after an earlier result was modified in place")
+
+
 def make_misc(byteorder, wordorder):
     """less-travelled API: skip_bytes, reset (builder and decoder), strings of odd length, a 16-bit group of bits,
     a builder seeded with an existing payload, to_registers on an odd total length"""
@@ -270,6 +287,9 @@ def obligations(tier):
             if (bo, wo) in ((">", ">"), ("<", "<")) or tier != "quick":
                 out.append(Obl("text.byte%s.word%s" % ("BE" if bo == ">" else "LE", "BE" if wo == ">" else "LE"), make_text(bo, wo), timeout=T,
                                bounds="add_string with a 2-character text string (str, every code point) followed by a symbolic u16: packed as its UTF-8 bytes, recovered, following value in place"))
+            if (bo, wo) == (">", ">"):
+                out.append(Obl("bits.alias", bits_alias, timeout=T,
+                               bounds="decode_bits of a symbolic byte, result extended and changed in place, same byte decoded by a second decoder: its 8 wire bits (real unpack_bitstring)"))
             out.append(Obl("misc.byte%s.word%s" % ("BE" if bo == ">" else "LE", "BE" if wo == ">" else "LE"), make_misc(bo, wo), timeout=T,
                            contracts=("bits",), bounds="u16 + 5-byte string + 16 bits (9 symbolic bytes): skip_bytes, decoder/builder reset, odd total length via registers, builder seeded with a payload"))
     for t in ("f16", "f32", "f64"):
